@@ -45,6 +45,9 @@ def write_json_dump_to_file(args: Any, config_name: str) -> None:
 
 def internal_hash(input_obj: str) -> str:
     """A generic internal hash used throughout ranking procedure - let's hardcode seed here for sure"""
+    if not isinstance(input_obj, (str, bytes)):
+        # numeric columns (e.g. the noise control features) reach the cardinality step too
+        input_obj = str(input_obj)
     if isinstance(input_obj, str):
         input_obj = input_obj.encode('utf-8')
     return xxhash.xxh32(input_obj, seed=20141025).hexdigest()
